@@ -17,7 +17,7 @@ RULE = ("cases = initial archive kind (null, dict, file x {pickle, json, source}
         "stays {}; ValueError exactly where the docstrings say (archived(True)/drop() with no archive). After EVERY step dict(cache), the contents of "
         "every archive ever attached, archived() and the identity of cache.archive are compared. non-trivial = a dump/load/sync executed while cache "
         "and archive hold conflicting values for a key, or a toggle-off .. mutate .. toggle-on sandwich; distinct = (kind, op-kind sequence)")
-ASSUMPTIONS = ['str keys (accepted by every backend) and scalar values (accepted by every codec)', 'hdf / sqlalchemy back ends are not installed']
+ASSUMPTIONS = ['str keys (accepted by every backend) or, where every involved backend takes them, int keys as hashing keymaps produce and scalar values (accepted by every codec)', 'hdf / sqlalchemy back ends are not installed']
 
 N = {'quick': 1500, 'thorough': 30000}
 SHARDS = {'quick': 4, 'thorough': 16}
@@ -68,7 +68,11 @@ def cases(draw, kind):
             ops.append([k, draw(st.integers(0, 3))])
         else:
             ops.append([k])
-    return {'kind': kind, 'ops': ops}
+    # keys as a hashing keymap produces them (ints): directory archives store such keys through an extra input file per entry
+    keyfam = 'int' if (all(A.key_ok(k, 3) for k in (kind, 'file_pkl', 'dir_dill', 'sql_file')) and draw(st.integers(0, 2)) == 0) else 'str'
+    # what the comparison after each step asks the archives for: the whole contents, only the key listing, or value lookups without listing
+    views = draw(st.lists(st.sampled_from(['items', 'items', 'keys', 'get']), min_size=1, max_size=8))
+    return {'kind': kind, 'ops': ops, 'keyfam': keyfam, 'views': views}
 
 
 def strata(tier):
@@ -91,6 +95,9 @@ def _run(case, root):
     out = []
     # dir_archive(serialized=False) reads entries back with 'from K_<key> import memo': keys must be identifier-safe
     KEYS = ['a', 'b', 'c', 'k1', 'k_2'] if kind == 'dir_src' else globals()['KEYS']
+    if case.get('keyfam') == 'int':
+        KEYS = [3, 12, -7, 0, 2 ** 40]
+        classes.append('int_keys')
     # registry of archives: list of (real archive object, model dict or None for null, kind)
     reg = []
 
@@ -272,13 +279,17 @@ def _run(case, root):
         if not A.exact(got, M):
             d = Discrepancy('C08/%s/%s/cache-differs' % (kind, k), 'step %d %r: cache %s, model %s' % (step, op, A.describe(got), A.describe(M)))
         if d is None:
+            view = (case.get('views') or ['items'])[step % len(case.get('views') or ['items'])]
+            classes.append('view:' + view)
             for i, (a, m, ak) in enumerate(reg):
-                try:
-                    ac = A.contents(a)
-                except Exception as e:
-                    d = Discrepancy('C08/%s/%s/archive-unreadable/%s' % (kind, k, exc_sig(e)), 'step %d %r: archive %d (%s): %r' % (step, op, i, ak, e))
+                obs = A.observe(a, view, KEYS)
+                if obs[0] != 'ok':
+                    d = Discrepancy('C08/%s/%s/archive-unreadable/%s' % (kind, k, obs[1]), 'step %d %r: archive %d (%s), view %s: %s' % (step, op, i, ak, view, obs[2]))
                     break
+                ac = obs[1]
                 want = {} if m is None else m
+                if view == 'keys':
+                    want = dict((kk, None) for kk in want)
                 if not A.exact(ac, want):
                     role = 'attached' if i == cur else ('parked' if i == parked else 'detached')
                     d = Discrepancy('C08/%s/%s/%s-archive-differs%s' % (kind, k, role, '/null-not-empty' if m is None else ''),
@@ -314,5 +325,5 @@ def _run(case, root):
     return out, nt, classes
 
 
-REQUIRED_CLASSES = ['conflict_sync', 'sandwich', 'off_noop', 'keyed_absent'] + ['kind:' + k for k in KINDS] + ['op:' + o for o in set(OPS)]
+REQUIRED_CLASSES = ['view:keys', 'view:get', 'int_keys', 'conflict_sync', 'sandwich', 'off_noop', 'keyed_absent'] + ['kind:' + k for k in KINDS] + ['op:' + o for o in set(OPS)]
 TRIGGERS = {}
